@@ -4,55 +4,79 @@ spec/AnnotateSeq.tla    reconciliation + walk over the selected molecules, opera
 spec/HelixRewrite.tla   DSSP -> Martini: ordered pattern rewriting = maximal-run rule                      (MC/TAB)
 spec/Trace_Annotate.tla TLC judges recorded runs of the real functions on larger random inputs             (TRACE)
 
-spec -> code: every state of both models is an (input, expected) pair replayed into the real
-AnnotateResidues.run_system (real selectors, shuffled node keys, 1-2 atoms per residue) and the real
-convert_dssp_to_martini / AnnotateMartiniSecondaryStructures."""
+spec/AnnotateRuns.tla   the same translation over strings built from segments (runs of every length at the start / middle /
+                        end, adjacent segments of different helix letters), three more laws                (MC/TAB)
+spec/DsspFormat.tla, DsspFile.tla, DsspLines.tla, DsspRoute.tla   the DSSP route (see harness/c17_dssp.py)      (MC/TAB/TRACE)
+
+spec -> code: every state of the models is an (input, expected) pair replayed into the real
+AnnotateResidues.run_system (real selectors, shuffled node keys, 1-2 atoms per residue, residue identities that restart,
+decrease, wrap 9999 -> 0, carry insertion codes or list chain B before chain A: the residue order is the order of the
+lowest node key, never the sorted identity), the real convert_dssp_to_martini / AnnotateMartiniSecondaryStructures, the real
+read_dssp2, and the real AnnotateDSSP driven by a scripted DSSP executable.
+code -> spec: random larger inputs of every family and runs of the real command line (`martinize2 -ss/-collagen/-dssp <exe>` on
+protein / ligand / protein systems in every order) are recorded and judged by TLC (Trace_Annotate)."""
 import multiprocessing as mp
 import random
 
 from . import common, tlc
+from . import c17_dssp as X
 
 PID = 'C17'
 SEQ_CFG = ("SPECIFICATION Spec\nINVARIANT OpIsDecl\nINVARIANT UnselectedUntouched\nINVARIANT EveryElementLands\n"
            "INVARIANT MismatchIsError\n")
+SEG_CFG = ("SPECIFICATION SpecSeg\nINVARIANT RewriteIsRuns\nINVARIANT LengthPreserved\nINVARIANT NonHelixByTable\n"
+           "INVARIANT HelixNeverPlainForShort\nINVARIANT HelixLettersAreOneClass\nINVARIANT LongRunCaps\nINVARIANT ShortRunAmbivalent\n")
 HEL_CFG = ("SPECIFICATION Spec\nINVARIANT RewriteIsRuns\nINVARIANT LengthPreserved\nINVARIANT NonHelixByTable\n"
            "INVARIANT HelixNeverPlainForShort\n")
 FULL_ALPHABET = ['H', 'G', 'I', 'E', 'B', 'T', 'S', 'C', '1', '2', '3']
 
 
 def build_system(spec_system, rng, use_protein_selector):
-    """Real System for a model system [{'sel':bool,'nres':int}]; residues of 1-2 atoms; node keys shuffled."""
+    """Real System for a model system [{'sel':bool,'nres':int}]; residues of 1-2 atoms; node keys shuffled.
+    Returns (system, some selected molecule has residue identities that do not sort in residue order)."""
     import vermouth
     from vermouth.system import System
     from vermouth.molecule import Molecule
     system = System()
+    nonsorting = False
     for mi, m in enumerate(spec_system):
         mol = Molecule()
         mol.meta['verif_selected'] = bool(m['sel'])
         natoms = [rng.randint(1, 2) for _ in range(m['nres'])]
         # residue order in vermouth is the order of the lowest node key of each residue (partition_graph): residue r
-        # gets the r-th block of an increasing key list; the INSERTION order of the atoms is shuffled independently
+        # gets the r-th block of an increasing key list; the INSERTION order of the atoms is shuffled independently, and the
+        # residue IDENTITIES (chain, resid, insertion code, resname) restart / decrease / wrap / carry insertion codes
         keys = sorted(rng.sample(range(0, 40), sum(natoms))) if rng.random() < 0.7 else list(range(sum(natoms)))
-        resname = ('ALA' if m['sel'] else 'LIG') if use_protein_selector else rng.choice(['ALA', 'LIG', 'XYZ'])
+        if use_protein_selector:
+            names = list(X.PROTEIN_NAMES) if m['sel'] else ['LIG', 'XYZ']
+        else:
+            names = ['ALA', 'LIG', 'XYZ', 'GLY']
+        rng.shuffle(names)
+        idents = X.identities(m['nres'], rng.choice(X.SCHEMES), names, rng)
+        nonsorting = nonsorting or (m['sel'] and not X.sorts_in_order(idents))
         atoms = []
         k = 0
-        for r, na in enumerate(natoms, 1):
+        for r, (na, ident) in enumerate(zip(natoms, idents), 1):
             for a in range(na):
-                atoms.append((keys[k], dict(resid=r + (3 if mi % 2 else 0), resname=resname, chain='A',
+                atoms.append((keys[k], dict(chain=ident[0], resid=ident[1], insertion_code=ident[2], resname=ident[3],
                                             atomname='A%d' % a, residx=r)))
                 k += 1
         rng.shuffle(atoms)
         for key, attrs in atoms:
             mol.add_node(key, **attrs)
         system.add_molecule(mol)
-    return system
+    return system, nonsorting
+
+
+STATS = {'nonsorting': 0}         # per process; summed over the pool workers through the chunk results
 
 
 def run_annotate(spec_system, n, rng):
     from vermouth.dssp.dssp import AnnotateResidues
     from vermouth import selectors
     use_protein = rng.random() < 0.5
-    system = build_system(spec_system, rng, use_protein)
+    system, nonsorting = build_system(spec_system, rng, use_protein)
+    STATS['nonsorting'] += nonsorting
     selector = selectors.is_protein if use_protein else (lambda mol: mol.meta['verif_selected'])
     seq = list(range(1, n + 1))
     if rng.random() < 0.3:
@@ -103,6 +127,7 @@ def _seq_chunk(args):
     states, seed = args
     rng = random.Random(seed)
     bad, n = [], 0
+    STATS['nonsorting'] = 0
     for st in states:
         if st['n'] < 0:
             continue
@@ -114,7 +139,7 @@ def _seq_chunk(args):
                 (err and any(v != 0 for a in ann for v in a)):
             bad.append({'kind': 'seq', 'system': spec_system, 'n': st['n'], 'expected': common.jsonable(exp),
                         'got_err': err, 'got_ann': ann})
-    return n, bad
+    return n, bad, STATS['nonsorting']
 
 
 def _hel_chunk(args):
@@ -139,8 +164,9 @@ def _trace_chunk(args):
             total = sum(m['nres'] for m in spec_system if m['sel'])
             lens = [m['nres'] for m in spec_system if m['sel']]
             nn = rng.choice([total, total, 1, lens[0] if lens else 0, total + 1, max(0, total - 1), rng.randint(0, 12)])
+            STATS['nonsorting'] = 0
             err, ann = run_annotate(spec_system, nn, rng)
-            out.append({'kind': 'seq', 'system': spec_system, 'n': nn, 'err': err, 'ann': ann})
+            out.append({'kind': 'seq', 'system': spec_system, 'n': nn, 'err': err, 'ann': ann, 'nonsorting': bool(STATS['nonsorting'])})
         else:
             L = rng.randint(0, 45)
             s = []
@@ -155,62 +181,212 @@ def _trace_chunk(args):
     return out
 
 
+class _Res:
+    pass
+
+
+def _tlc_task(model):
+    """One TLC model in a pool worker (4 at a time, 4 TLC workers each): summary + dumped states, scratch removed here."""
+    import shutil
+    name, module, cfg, consts = model
+    work = tlc.scratch('c17m_')
+    try:
+        r = tlc.run(module, cfg, consts=consts, dump=True, timeout=3000, workdir=work, workers=4)
+        out = _Res()
+        for k in ('distinct', 'generated', 'depth', 'wall', 'coverage', 'violated'):
+            setattr(out, k, getattr(r, k))
+        out.rows = [] if r.violated else list(r.states())
+        return out
+    finally:
+        shutil.rmtree(work, ignore_errors=True)
+
+
+def _need(cond, what):
+    """Vacuity guard: a family that did not exercise what it exists for is a machinery failure, never a pass."""
+    if not cond:
+        raise tlc.MachineryError('vacuous: ' + what)
+
+
 def run(tier, seed, ev, vd):
-    ev.rule = ('TAB: every system of <=N molecules x selected flags x 1..3 residues x every sequence length, and every DSSP '
-               'string up to the bound; TRACE: random larger systems / strings. Non-trivial = system with a selected and an '
-               'unselected molecule or with repetition, or a string with a helical run of length >= 2; distinct by input.')
+    ev.rule = ('TAB: every system of <=N molecules x selected flags x 1..3 residues x every sequence length; every DSSP string up '
+               'to the bound and every segment string; every DSSP file of <= k lines over the line pool; every system x DSSP answer '
+               'shape. TRACE: random larger systems / strings / files / DSSP runs and command-line runs. Non-trivial = system with '
+               'a selected and an unselected molecule or with repetition; string with a helical run of length >= 2; DSSP file '
+               'with a table line and >= 1 residue or a malformed line after it; DSSP run with a non-protein or position-less '
+               'molecule next to a protein, or with an unusable answer; command-line run with a ligand between/before proteins. '
+               'Distinct by input.')
     ev.assumptions = ['TLC evaluates the operators correctly', 'residues are identified by (chain, resid, resname, insertion code) '
-                      'as in the implementation; sequence elements are distinct integers so that positions are observable',
-                      'DSSP executable path not exercised (no binary in the sandbox)']
+                      'as in the implementation and ordered by their lowest node key; sequence elements are distinct integers so '
+                      'that positions are observable',
+                      'no DSSP binary in the sandbox: the executable is a script whose answers the driver plans; what a real DSSP '
+                      'computes is not checked, only that its output is read and placed as documented',
+                      'not generated (unspecified): an empty DSSP output iterable, a DSSP file whose FIRST line is the table line, '
+                      'a one-residue DSSP answer for a longer molecule, -ss letters outside the documented alphabet (incl. P)',
+                      'the ITP header line "The following sequence of secondary structure was used" is judged only when '
+                      'martinize2 writes it (counted in ss_header_absent / ss_header_present); on this tree it never does '
+                      '(gmx_system_header reads "secstruct", the annotators write "aasecstruct")',
+                      'which version strings make run_dssp warn is not judged (outside the statement); runs with a supported, '
+                      'an unsupported and a decorated version string must all annotate alike']
     quick = tier == 'quick'
-    r1 = tlc.run('AnnotateSeq', SEQ_CFG, consts={'MaxMols': '3' if quick else '4', 'MaxRes': '3', 'MaxSeqExtra': '1'},
-                 dump=True, timeout=1800)
-    if r1.violated:
-        raise tlc.MachineryError('AnnotateSeq violates ' + r1.violated)
-    ev.add_tlc('TAB AnnotateSeq', r1)
-    s1 = list(r1.states())
-    r2 = tlc.run('HelixRewrite', HEL_CFG, consts={'Alphabet': '{"H","C"}', 'MaxLen': '11' if quick else '14'}, dump=True, timeout=1800)
-    if r2.violated:
-        raise tlc.MachineryError('HelixRewrite violates ' + r2.violated)
-    ev.add_tlc('TAB HelixRewrite {H,C}', r2)
-    s2 = list(r2.states())
-    r3 = tlc.run('HelixRewrite', HEL_CFG, consts={'Alphabet': tlc.tlaval.to_tla(set(FULL_ALPHABET if not quick else
-                                                                                      ['H', 'G', 'E', 'T', 'C', '1'])),
-                                                  'MaxLen': '4' if quick else '5'}, dump=True, timeout=1800)
-    if r3.violated:
-        raise tlc.MachineryError('HelixRewrite violates ' + r3.violated)
-    ev.add_tlc('TAB HelixRewrite full alphabet', r3)
-    s3 = list(r3.states())
+    import time
+    t0 = time.time()
+    timing = ev.extra.setdefault('timing_s', {})
+    # the table of concrete DSSP lines first: the command-line plan needs it, and those runs take longest
+    table, rl = X.line_table()
+    ev.add_tlc('TAB DsspLines', rl)
+    cli_cases = X.cli_plan(tier, seed, table)
+    cli_pool = mp.Pool(tlc.NCPU, maxtasksperchild=1)        # the command-line runs start first and run next to everything else
+    cli_async = cli_pool.map_async(X.cli_case, cli_cases, chunksize=1)
+    pool_kinds = X.POOL_QUICK if quick else X.POOL_QUICK + X.POOL_MORE
+    row_kinds = X.ROW_POOL if not quick else [k for k in X.ROW_POOL if k not in ('rS', 'rh', 'near1')]
+    models = [
+        ('TAB AnnotateSeq', 'AnnotateSeq', SEQ_CFG, {'MaxMols': '3' if quick else '4', 'MaxRes': '3', 'MaxSeqExtra': '1'}),
+        ('TAB HelixRewrite {H,C}', 'HelixRewrite', HEL_CFG, {'Alphabet': '{"H","C"}', 'MaxLen': '11' if quick else '14'}),
+        ('TAB HelixRewrite full alphabet', 'HelixRewrite', HEL_CFG,
+         {'Alphabet': tlc.tlaval.to_tla(set(FULL_ALPHABET if not quick else ['H', 'G', 'E', 'T', 'C', '1'])), 'MaxLen': '4' if quick else '5'}),
+        # segment strings: runs of every length at the ends / in the middle, adjacent segments of different helix letters
+        ('TAB AnnotateRuns ' + ('two' if quick else 'three') + ' segments, full alphabet', 'AnnotateRuns', SEG_CFG,
+         {'Alphabet': tlc.tlaval.to_tla(set(FULL_ALPHABET)), 'MaxLen': '0', 'SegLens': '1..9' if quick else '{1,2,3,4,5,7,8,9}',
+          'MaxSegs': '2' if quick else '3'}),
+        ('TAB AnnotateRuns ' + ('four segments {H,G,C}' if quick else 'five segments {H,I,C}'), 'AnnotateRuns', SEG_CFG,
+         {'Alphabet': '{"H","G","C"}' if quick else '{"H","I","C"}', 'MaxLen': '0',
+          'SegLens': '{1,3,4,5,8}' if quick else '{1,2,4,5,7,8,11}', 'MaxSegs': '4' if quick else '5'}),
+        ('TAB DsspFile free product', 'DsspFile', X.FILE_CFG,
+         {'Pool': tlc.tlaval.to_tla(set(pool_kinds)), 'Prefixes': '{<<>>}', 'MaxLines': '4' if quick else '5'}),
+        ('TAB DsspFile rows after a table line', 'DsspFile', X.FILE_CFG,
+         {'Pool': tlc.tlaval.to_tla(set(row_kinds)), 'Prefixes': '{<<"hdr","table">>, <<"hdr","near2","hist","table">>}',
+          'MaxLines': '3' if quick else '4'}),
+        ('TAB DsspRoute', 'DsspRoute', X.ROUTE_CFG,
+         {'MaxMols': '3', 'MaxRes': '2' if quick else '3', 'Shapes': tlc.tlaval.to_tla(set(X.SHAPES))}),
+    ]
+    with mp.Pool(4) as pool:
+        done = pool.map(_tlc_task, models, chunksize=1)
+    got = {}
+    for (name, module, _, _), res in zip(models, done):
+        if res.violated:
+            raise tlc.MachineryError('%s violates %s' % (module, res.violated))
+        ev.add_tlc(name, res)
+        got[name] = res.rows
+    s1 = got[models[0][0]]
+    s2, s3 = got[models[1][0]], got[models[2][0]]
+    s4 = got[models[3][0]] + got[models[4][0]]
+    s5 = got[models[5][0]] + got[models[6][0]]
+    s6 = [st for st in got[models[7][0]] if st['out'].get('unspecified') is False]
     ev.exhaustive = True
+    timing['tlc_models'] = round(time.time() - t0, 1)
+
     with mp.Pool(tlc.NCPU) as pool:
         o1 = pool.map(_seq_chunk, [(c, seed * 31 + i) for i, c in enumerate(common.chunks(s1, tlc.NCPU * 2))])
-        o2 = pool.map(_hel_chunk, [(c, seed * 37 + i) for i, c in enumerate(common.chunks(s2 + s3, tlc.NCPU * 2))])
-    for n, bad in o1 + o2:
+        o2 = pool.map(_hel_chunk, [(c, seed * 37 + i) for i, c in enumerate(common.chunks(s2 + s3 + s4, tlc.NCPU * 2))])
+        o5 = pool.map(X._file_chunk, [(c, table) for c in common.chunks(s5, tlc.NCPU * 2)])
+        o6 = pool.map(X._route_chunk, [(c, table, seed * 41 + i, 40 if quick else 25)
+                                       for i, c in enumerate(common.chunks(s6, tlc.NCPU * 4))])
+    timing['replays'] = round(time.time() - t0, 1)
+    nonsorting = 0
+    for n, bad, ns in o1:
+        nonsorting += ns
+        o2.append((n, bad))
+    for n, bad in o2:
         ev.traces += n
         ev.evaluations += n
         for b in bad:
             vd.violation('replay-mismatch', b, 'expected %s got %s' % (b.get('expected'), b.get('got', (b.get('got_err'), b.get('got_ann')))))
+    _need(nonsorting >= 100, 'AnnotateSeq replay built %d systems whose residue identities do not sort' % nonsorting)
+    files_judged = files_skipped = 0
+    for n, skipped, bad in o5:
+        ev.traces += n
+        ev.evaluations += n
+        files_judged += n
+        files_skipped += skipped
+        for b in bad:
+            vd.violation('replay-mismatch', b, 'read_dssp2: expected %s got err=%s %s' % (b['expected'], b['got_err'], b['got']))
+    rstats = {}
+    for n, bad, stats in o6:
+        ev.traces += n
+        ev.evaluations += n
+        for k, v in stats.items():
+            rstats[k] = rstats.get(k, 0) + v
+        for b in bad:
+            vd.violation('replay-mismatch', b, 'AnnotateDSSP: ' + b['why'])
+    _need(rstats.get('exe', 0) >= 20 and rstats.get('err', 0) >= 100 and rstats.get('ok', 0) >= 100 and
+          rstats.get('lig_first', 0) >= 50 and rstats.get('nopos', 0) >= 50, 'DsspRoute replay classes %r' % (rstats,))
     for st in s1:
         if st['n'] >= 0:
             sels = {m['sel'] for m in st['system']}
             if len(sels) == 2 or (len(st['system']) >= 2 and st['n'] in (1, st['system'][0]['nres'])):
                 ev.nontrivial_case(['seq', st['system'], st['n']])
-    for st in s2 + s3:
+    for st in s2 + s3 + s4:
         s = ''.join(st['str'])
         if any(a + b in s for a in 'HGI123' for b in 'HGI123'):
             ev.nontrivial_case(['helix', s])
+    nfile_ok = 0
+    for st in s5:
+        ks = list(st['kinds'])
+        if 'table' in ks[1:] and not st['out'].get('unspecified') and len(ks) > ks.index('table', 1) + 1:
+            ev.nontrivial_case(['file', ks])
+            nfile_ok += (not st['out']['err']) and len(st['out']['val']) >= 1
+    _need(nfile_ok >= 200, 'DsspFile: only %d well-formed files with residues' % nfile_ok)
+    for st in s6:
+        if st['out']['exp']['errAt'] or any(not X_is_caller(m) for m in st['mols']):
+            ev.nontrivial_case(['dssp', st['mols'], st['shapes']])
     ev.sample({'kind': 'AnnotateSeq state replayed', 'state': next(s for s in s1 if s['n'] > 2 and len(s['system']) >= 2)})
     ev.sample({'kind': 'HelixRewrite state replayed', 'in': ''.join(s2[-1]['str']), 'expected': ''.join(s2[-1]['out'])})
+    ev.sample({'kind': 'DsspRoute state replayed into AnnotateDSSP with the scripted executable', 'state': s6[len(s6) // 2]}, limit=5)
+    ev.extra['families'] = {'annotate_seq_nonsorting_identities': nonsorting, 'dssp_files_replayed': files_judged,
+                            'dssp_files_unspecified_skipped': files_skipped, 'dssp_route_rows': rstats}
 
     ntr = 1600 if quick else 30000
+    nfile = 160 if quick else 3000
+    ndssp = 320 if quick else 6000
     with mp.Pool(tlc.NCPU) as pool:
         parts = pool.map(_trace_chunk, [(ntr // tlc.NCPU, seed * 7877 + i) for i in range(tlc.NCPU)])
+        parts += pool.map(X._file_events, [(nfile // tlc.NCPU, seed * 7879 + i, table) for i in range(tlc.NCPU)])
+        parts += pool.map(X._dssp_events, [(ndssp // tlc.NCPU, seed * 7883 + i, table) for i in range(tlc.NCPU)])
     batch = [e for p in parts for e in p]
+    timing['recorded_runs'] = round(time.time() - t0, 1)
+    cli_events = cli_async.get(timeout=3000)
+    timing['command_line_runs_done'] = round(time.time() - t0, 1)
+    cli_pool.close()
+    cli_pool.join()
+    inconclusive = [e for e in cli_events if e['kind'] == 'inconclusive']
+    batch += [e for e in cli_events if e['kind'] != 'inconclusive']
+    fam = ev.extra['families']
+    fam['cli_runs'] = len(cli_events)
+    fam['cli_inconclusive'] = [{'argv': e['argv'], 'why': e['why'][:200]} for e in inconclusive][:10]
+    conclusive = [e for e in cli_events if e['kind'] != 'inconclusive']
+    fam['cli_ss'] = sum(1 for e in conclusive if e['kind'] == 'cli' and e['mode'] == 'ss')
+    fam['cli_collagen'] = sum(1 for e in conclusive if e['kind'] == 'cli' and e['mode'] == 'collagen')
+    fam['cli_dssp'] = sum(1 for e in conclusive if e['kind'] == 'dssp')
+    fam['cli_errors_expected'] = sum(1 for e in conclusive if e['err'])
+    fam['cli_nonsorting'] = sum(1 for e in conclusive if e.get('nonsorting'))
+    fam['ss_header_present'] = sum(1 for e in conclusive if e.get('wrote') and e['hdr'] != ['-'])
+    fam['ss_header_absent'] = sum(1 for e in conclusive if e.get('wrote') and e['hdr'] == ['-'])
+    fam['dssp_saved_outputs_compared'] = sum(1 for e in conclusive if e['kind'] == 'dssp' and e['saved'])
+    _need(len(inconclusive) * 4 <= len(cli_events) and fam['cli_ss'] >= 8 and fam['cli_collagen'] >= 2 and fam['cli_dssp'] >= 4
+          and fam['cli_errors_expected'] >= 3 and fam['cli_nonsorting'] >= 5,
+          'command-line family: %r' % ({k: v for k, v in fam.items() if k.startswith('cli')},))
     judge_batch(batch, ev, vd)
+    timing['judged'] = round(time.time() - t0, 1)
+    kinds = {}
+    for e in batch:
+        key = e['kind'] + ('/err' if e.get('err') else '')
+        kinds[key] = kinds.get(key, 0) + 1
+    fam['judged_events'] = kinds
+    fam['dssp_events_nonsorting'] = sum(1 for e in batch if e['kind'] == 'dssp' and e.get('nonsorting'))
+    fam['seq_events_nonsorting'] = sum(1 for e in batch if e['kind'] == 'seq' and e.get('nonsorting'))
+    _need(kinds.get('file', 0) >= 20 and kinds.get('file/err', 0) >= 10 and kinds.get('dssp', 0) >= 50 and kinds.get('dssp/err', 0) >= 20
+          and fam['dssp_events_nonsorting'] >= 30 and fam['seq_events_nonsorting'] >= 100, 'judged families %r' % (fam,))
+
+
+def X_is_caller(m):
+    return m['protein'] and m['haspos']
+
+
+HARNESS_ONLY = ('nonsorting', 'how', 'errtype', 'argv', 'chains', 'rc', 'exc', 'wrote')     # never shown to TLC
 
 
 def judge_batch(batch, ev, vd):
-    shards = common.chunks(batch, 4 if len(batch) < 4000 else tlc.NCPU)
+    shards = common.chunks(batch, 4 if len(batch) < 2500 else tlc.NCPU)
     with mp.Pool(len(shards)) as pool:
         res = pool.map(_judge, shards)
     for shard, (dist, gen, verdicts) in zip(shards, res):
@@ -220,45 +396,167 @@ def judge_batch(batch, ev, vd):
             ev.traces += 1
             ev.evaluations += 1
             v = verdicts.get(i, 'no-verdict')
+            if v in ('unspecified-input-generated', 'no-verdict'):
+                raise tlc.MachineryError('judge returned %s for %r' % (v, {k: e[k] for k in e if k not in ('plan', 'saved', 'lines')}))
             if v != 'ok':
-                vd.violation('trace-rejected', e, v)
+                vd.violation('trace-rejected', slim(e), v)
             if e['kind'] == 'seq' and len({m['sel'] for m in e['system']}) == 2:
                 ev.nontrivial_case(['seq', e['system'], e['n']])
             elif e['kind'] == 'helix' and len(e['in']) >= 2:
                 ev.nontrivial_case(['helix', ''.join(e['in'])])
+            elif e['kind'] == 'file' and len(e['lines']) >= 3:
+                ev.nontrivial_case(['file', [''.join(l) for l in e['lines']]])
+            elif e['kind'] == 'dssp' and (e['err'] or any(not X_is_caller(m) for m in e['mols'])):
+                ev.nontrivial_case(['dssp', e['mols'], [[''.join(l) for l in c['lines']] for c in e['plan']]])
+            elif e['kind'] == 'cli' and len({m['sel'] for m in e['system']}) == 2:
+                ev.nontrivial_case(['cli', e['mode'], e['system'], ''.join(e['seq'])])
     ev.tlc_runs.append({'run': 'TRACE Trace_Annotate', 'events': len(batch)})
-    ev.sample({'kind': 'recorded run judged by TLC', 'event': batch[0]})
+    for kind in ('seq', 'dssp', 'cli'):
+        for e in batch:
+            if e['kind'] == kind and (kind == 'seq' or e.get('how') in ('cli', None)):
+                ev.sample({'kind': 'recorded run judged by TLC', 'event': slim(e)}, limit=6)
+                break
+
+
+def slim(e):
+    """Events as stored in replays / samples: DSSP texts as strings again."""
+    e = dict(e)
+    if 'plan' in e:
+        e['plan'] = [{'status': c['status'], 'text': '\n'.join(''.join(l) for l in c['lines'])} for c in e['plan']]
+    if 'saved' in e:
+        e['saved'] = ['\n'.join(''.join(l) for l in t) for t in e['saved']]
+    if e.get('kind') == 'file':
+        e['lines'] = [''.join(l) for l in e['lines']]
+    return e
 
 
 def _judge(shard):
     work = tlc.scratch('c17_')
-    tf = tlc.write_json(work, 'trace.json', shard)
-    res = tlc.run('Trace_Annotate', 'SPECIFICATION Spec\n', dump=True, env={'TRACE_FILE': tf}, workdir=work, workers=2, timeout=1800)
-    verdicts = {st['tid']: st['verdict'] for st in res.states() if st['verdict'] != 'pending'}
-    return res.distinct, res.generated, verdicts
+    try:
+        tf = tlc.write_json(work, 'trace.json', [{k: v for k, v in e.items() if k not in HARNESS_ONLY} for e in shard])
+        res = tlc.run('Trace_Annotate', 'SPECIFICATION Spec\n', dump=True, env={'TRACE_FILE': tf}, workdir=work, workers=2, timeout=1800)
+        verdicts = {st['tid']: st['verdict'] for st in res.states() if st['verdict'] != 'pending'}
+        return res.distinct, res.generated, verdicts
+    finally:
+        import shutil
+        shutil.rmtree(work, ignore_errors=True)
 
 
 def replay(sc):
     rng = random.Random(0)
-    if sc['kind'] == 'seq':
+    kind = sc.get('kind')
+    if kind == 'seq':
         print('real AnnotateResidues ->', run_annotate(sc['system'], sc['n'], rng), 'expected', sc.get('expected'))
-    else:
+    elif kind == 'helix':
         s = sc['in'] if isinstance(sc['in'], str) else ''.join(sc['in'])
         from vermouth.dssp import dssp
         print('real convert_dssp_to_martini(%r) -> %r expected %r' % (s, dssp.convert_dssp_to_martini(s), sc.get('expected')))
+    elif kind == 'file':
+        from vermouth.dssp import dssp
+        try:
+            print('real read_dssp2 ->', dssp.read_dssp2(list(sc['lines'])))
+        except IOError as exc:
+            print('real read_dssp2 raised IOError:', exc)
+        print('expected', sc.get('expected'))
+    elif kind in ('dssp-row', 'dssp') and sc.get('how') != 'cli':
+        calls = sc.get('calls') or sc['plan']
+        mols = [{k: m[k] for k in ('protein', 'haspos', 'nres')} for m in sc['mols']]
+        e = X.run_library(mols, calls, rng, 'exe')
+        print('real AnnotateDSSP with the scripted executable ->', {k: e[k] for k in ('err', 'errtype', 'aa', 'cg', 'ncalls', 'seen')})
+        print('expected', sc.get('expected'), sc.get('why', ''))
+    else:
+        case = {'chains': sc['chains'], 'seed': 0, 'mode': sc.get('mode', 'dssp'), 'ss': ''.join(sc.get('seq', [])), 'extra': []}
+        if kind == 'dssp':
+            case['calls'] = sc['plan']
+        print('command: martinize2', sc.get('argv'))
+        e = X.cli_case(case)
+        print({k: v for k, v in e.items() if k not in ('plan', 'saved')})
     return 0
 
 
 def selftest(seed):
+    import copy
+    import os
+    table, _ = X.line_table()
     batch = _trace_chunk((12, seed))
     batch[2]['ann'] = [[v + 1 for v in a] for a in batch[2]['ann']]
     batch[3]['out'] = ['C'] + batch[3]['out'][1:] if batch[3]['out'] and batch[3]['out'][0] != 'C' else batch[3]['out'] + ['C']
+    expected = 2
+    rng = random.Random(seed)
+    # --- read_dssp2 events: a class changed, a residue dropped, an error swallowed
+    files = [e for e in X._file_events((40, seed, table)) ]
+    good = [e for e in files if not e['err'] and len(e['out']) >= 3]
+    bad = [e for e in files if e['err']]
+    f1 = copy.deepcopy(good[0]); f1['out'][1] = 'H' if f1['out'][1] != 'H' else 'E'
+    f2 = copy.deepcopy(good[1]); f2['out'] = f2['out'][:-1]
+    f3 = copy.deepcopy(bad[0]); f3['err'] = False; f3['out'] = ['C']
+    f4 = copy.deepcopy(good[2]); f4['err'] = True; f4['out'] = []
+    batch += [good[3], f1, f2, f3, f4]
+    expected += 4
+    # --- AnnotateDSSP events
+    mols = [{'protein': False, 'haspos': True, 'nres': 2}, {'protein': True, 'haspos': True, 'nres': 9},
+            {'protein': True, 'haspos': False, 'nres': 3}, {'protein': True, 'haspos': True, 'nres': 6}]
+    calls = [X.random_answer(rng, table, 9, 'breaks'), X.random_answer(rng, table, 6, 'exact')]
+    d0 = X.run_library(mols, calls, rng, 'exe')
+    assert not d0['err'] and d0['ncalls'] == 2, d0
+    d1 = copy.deepcopy(d0); d1['aa'][1] = d1['aa'][1][1:] + d1['aa'][1][:1]                   # classes shifted by one residue
+    d2 = copy.deepcopy(d0); d2['aa'][0] = ['C', 'C']                                         # ligand annotated
+    d3 = copy.deepcopy(d0); d3['cg'][3] = d3['aa'][3]                                        # translation not applied
+    d4 = copy.deepcopy(d0); d4['aa'][1], d4['aa'][3] = d4['aa'][1][:6] + d4['aa'][3][:3], d4['aa'][3]   # wrong molecule's classes
+    d4['aa'][1] = (d0['aa'][3] + d0['aa'][3])[:9]
+    d5 = copy.deepcopy(d0); d5['seen'][0]['nres'] -= 1                                       # DSSP was given another molecule
+    calls_bad = [X.random_answer(rng, table, 9, 'shortbrk'), X.random_answer(rng, table, 6, 'exact')]
+    e0 = X.run_library(mols, calls_bad, rng, 'shim')
+    assert e0['err'], e0
+    e1 = copy.deepcopy(e0); e1['err'] = False                                                # unusable answer not rejected
+    e2 = copy.deepcopy(e0); e2['aa'][1] = ['C'] * 9                                          # ... and a shifted assignment left behind
+    batch += [d0, d1, d2, d3, d4, d5, e0, e1, e2]
+    expected += 7
+    # --- one command-line run of each route, then tampered
+    cases = [c for c in X.cli_plan('quick', seed, table)]
+    pick = [next(c for c in cases if c['mode'] == 'ss' and len(c['ss']) > 5), next(c for c in cases if c['mode'] == 'collagen'),
+            next(c for c in cases if c['mode'] == 'dssp')]
+    with mp.Pool(3, maxtasksperchild=1) as pool:
+        c_ss, c_col, c_dssp = pool.map(X.cli_case, pick, chunksize=1)
+    assert c_ss['kind'] == 'cli' and c_col['kind'] == 'cli' and c_dssp['kind'] == 'dssp', (c_ss, c_col, c_dssp)
+    prot = next(i for i, m in enumerate(c_ss['system']) if m['sel'] and m['nres'] > 2)
+    t1 = copy.deepcopy(c_ss); t1['beads'][prot] = t1['beads'][prot][::-1] if t1['beads'][prot] != t1['beads'][prot][::-1] else ['C'] * len(t1['beads'][prot])
+    t2 = copy.deepcopy(c_ss); lig = next(i for i, m in enumerate(t2['system']) if not m['sel']); t2['aa'][lig] = ['C']
+    t3 = copy.deepcopy(c_ss); t3['hdr'] = ['C'] * 3                                          # a header that is not the sequence
+    t4 = copy.deepcopy(c_col); p2 = next(i for i, m in enumerate(t4['system']) if m['sel']); t4['cg'][p2] = ['C'] * len(t4['cg'][p2])
+    t5 = copy.deepcopy(c_dssp); p3 = next(i for i, m in enumerate(t5['mols']) if m['protein'] and m['nres'] > 2)
+    t5['beads'][p3] = t5['beads'][p3][1:] + t5['beads'][p3][:1]
+    if t5['beads'][p3] == c_dssp['beads'][p3]:
+        t5['beads'][p3] = ['F'] * len(t5['beads'][p3])
+    t6 = copy.deepcopy(c_dssp)
+    if t6['saved']:
+        t6['saved'][0] = t6['saved'][0][1:]
+        expected += 1
+    else:
+        t6 = None
+    batch += [c_ss, t1, t2, t3, c_col, t4, c_dssp, t5] + ([t6] if t6 else [])
+    expected += 5
     ev = common.Evidence(PID, 'quick', seed)
     vd = common.Verdicts(PID, ev)
     judge_batch(batch, ev, vd)
-    assert len(vd.violations) == 2, vd.violations
     print('selftest C17: corrupted events rejected:', [d for k, p, d in vd.violations])
-    import os
+    assert len(vd.violations) == expected, (expected, vd.violations)
+    # --- replay side: a tampered expected value in a DsspRoute row and a DsspFile row must be reported
+    r6 = tlc.run('DsspRoute', X.ROUTE_CFG, consts={'MaxMols': '2', 'MaxRes': '2', 'Shapes': '{"exact","long"}'}, dump=True)
+    rows = [st for st in r6.states() if st['out'].get('unspecified') is False and not st['out']['exp']['errAt'] and len(st['mols']) == 2
+            and any(X_is_caller(m) for m in st['mols'])][:4]
+    tam = copy.deepcopy(rows)
+    i = next(i for i, m in enumerate(tam[0]['mols']) if X_is_caller(m))
+    tam[0]['out']['exp']['aa'] = tuple(tuple('H' if c != 'H' else 'E' for c in a) if k == i else a for k, a in enumerate(tam[0]['out']['exp']['aa']))
+    n, bad, _ = X._route_chunk((rows + tam[:1], table, seed, 2))
+    assert n == 5 and len(bad) == 1 and bad[0]['why'].startswith('aasecstruct'), bad
+    rf = tlc.run('DsspFile', X.FILE_CFG, consts={'Pool': '{"rH","r_","brk"}', 'Prefixes': '{<<"hdr","table">>}', 'MaxLines': '2'}, dump=True)
+    frows = list(rf.states())
+    ftam = copy.deepcopy([st for st in frows if len(st['kinds']) == 4 and 'brk' in st['kinds']][:1])
+    ftam[0]['out'] = {'err': False, 'val': ('C',) + tuple(ftam[0]['out']['val'])}             # as if the break were a residue
+    n, _, bad = X._file_chunk((frows + ftam, table))
+    assert len(bad) == 1, bad
+    print('selftest C17: tampered table rows rejected: DsspRoute 1/1, DsspFile 1/1 (of %d + %d rows replayed)' % (5, len(frows) + 1))
     for k, p, d in vd.violations:
         os.path.exists(p) and os.remove(p)
     return 0
